@@ -460,6 +460,25 @@ func runC01(c *rt.Ctx) {
 	}
 	years = append(years, 999999999, 999999998, 500000000, 123456789, 100004, 99996, 400000, 400004)
 	nSeeded := c.Pick(20000, 2000000)
+	// the same date held by variables that received it by other routes than New: every output path gives the same text
+	c.Serial("dates-by-every-route", func(w *rt.W) {
+		for _, ymd := range [][3]int{{1, 1, 1}, {2024, 2, 29}, {1965, 3, 4}, {1969, 12, 31}, {1970, 1, 1}, {0, 1, 1}, {9999, 12, 31}, {1900, 3, 1}} {
+			y, m, d := ymd[0], ymd[1], ymd[2]
+			wantE, wantB := ref.DateText(int64(y), m, d, false), ref.DateText(int64(y), m, d, true)
+			for ri, r := range dateRoutes(y, time.Month(m), d) {
+				mt, err := r.MarshalText()
+				jb, jerr := json.Marshal(r)
+				fb, ferr := date.DefaultFormatter(nil, r, date.FormatBasic)
+				gy, gm, gd := r.Date()
+				w.Eval(5)
+				if err != nil || jerr != nil || ferr != nil || string(mt) != wantE || r.String() != wantE || string(jb) != `"`+wantE+`"` || string(fb) != wantB || fmt.Sprintf("%b", r) != wantB || gy != y || int(gm) != m || gd != d {
+					c01Fail(w, "out-by-route", int64(y), m, d, fmt.Sprintf("output paths of the date reached by route %d", ri), fmt.Sprint(string(mt), " ", r.String(), " ", string(jb), " ", string(fb), " ", gy, gm, gd), wantE+" / "+wantB)
+				}
+			}
+			w.ClassN("date-by-every-route", 1)
+		}
+	})
+	c.Require("date-by-every-route", 8)
 	// the limit raised "to infinity": a short list of dates (a limit-sized allocation per call would take minutes on
 	// the full stream; one probed call decides whether the list is run under that limit)
 	for _, limit := range []int{math.MaxInt, math.MaxInt - 1, math.MaxInt32, 1 << 30} {
